@@ -32,6 +32,12 @@ var c17OSPure = map[string]bool{"Getenv": true, "LookupEnv": true, "ExpandEnv": 
 var c17FilepathFS = map[string]bool{"Walk": true, "WalkDir": true, "Glob": true, "EvalSymlinks": true, "Abs": true}
 var c17PurePackages = map[string]bool{"fmt": true, "strings": true, "path": true, "path/filepath": true, "errors": true, "bytes": true,
 	"unicode": true, "unicode/utf8": true, "strconv": true, "sort": true, "github.com/krotik/ecal/verifhook": true}
+
+// methods that do not touch the file system whatever their receiver is here (os.FileInfo accessors, error / Stringer,
+// sync.Map and mutex operations)
+var c17PureMethods = map[string]bool{"Error": true, "String": true, "IsDir": true, "Mode": true, "Name": true, "Size": true, "ModTime": true,
+	"IsRegular": true, "Load": true, "Store": true, "LoadOrStore": true, "Delete": true, "Lock": true, "Unlock": true, "RLock": true, "RUnlock": true}
+
 var c17Builtins = map[string]bool{"string": true, "len": true, "append": true, "make": true, "new": true, "cap": true, "copy": true,
 	"panic": true, "byte": true, "rune": true, "int": true, "error": true, "delete": true}
 
@@ -180,6 +186,96 @@ func c17OpenFacts(root string) ([]c17OpenFact, error) {
 		}
 	}
 	var facts []c17OpenFact
+	// is the call a direct file-system call / a call that cannot be classified?
+	classify := func(fd *ast.FuncDecl, ce *ast.CallExpr) string { // "fs" | "pure" | "same" | "unknown:<why>"
+		q := qual(fd, ce)
+		switch {
+		case strings.HasPrefix(q, "same:"):
+			return "same"
+		case strings.HasPrefix(q, "builtin:"), strings.HasPrefix(q, "method:") && c17PureMethods[q[7:]]:
+			return "pure"
+		case q == "" || strings.HasPrefix(q, "method:") || strings.HasPrefix(q, "local:"):
+			return "unknown:call not classified (it may touch the file system)"
+		}
+		i := strings.LastIndex(q, ".")
+		ip, fn := q[:i], q[i+1:]
+		switch {
+		case ip == "os" && c17OSPure[fn]:
+			return "pure"
+		case c17FSPackages[ip], ip == "path/filepath" && c17FilepathFS[fn]:
+			return "fs"
+		case c17PurePackages[ip]:
+			return "pure"
+		}
+		return "unknown:call into " + ip + " not classified (it may touch the file system)"
+	}
+	// helpers (not containing the test) that touch the file system: which parameter reaches the call, and how
+	type helperFS struct {
+		param   int    // index of the parameter handed to the file-system call (-1: something else)
+		verdict string // configured: the parameter itself; REFUTED: rewritten / another value
+		why     string
+	}
+	helperInfo := map[string][]helperFS{}
+	for name, fds := range c.funcs {
+		if testFns[name] {
+			continue
+		}
+		for _, fd := range fds {
+			var params []string
+			if fd.Type.Params != nil {
+				for _, f := range fd.Type.Params.List {
+					for _, n := range f.Names {
+						params = append(params, n.Name)
+					}
+				}
+			}
+			for _, ce := range callsOf(fd) {
+				if classify(fd, ce) != "fs" {
+					continue
+				}
+				h := helperFS{param: -1, verdict: c17Refuted, why: "the file-system call in " + name + " is not handed a parameter: " + c17Text(p.fset, ce)}
+				if len(ce.Args) > 0 {
+					arg := unparen(ce.Args[0])
+					if id, ok := arg.(*ast.Ident); ok {
+						for i, pn := range params {
+							if pn == id.Name && len(c17DefsOf(fd, pn)) == 0 {
+								h = helperFS{i, c17OK, ""}
+							}
+						}
+					} else if cv, ok := arg.(*ast.CallExpr); ok && c17Rewriters[c17CallName(cv.Fun)] {
+						h.why = "the helper " + name + " rewrites the string before the file-system call: " + c17Text(p.fset, ce)
+					}
+				}
+				helperInfo[name] = append(helperInfo[name], h)
+			}
+		}
+	}
+	isLocal := func(fd *ast.FuncDecl, name string) bool {
+		if c.isParam(fd, name) {
+			return true
+		}
+		local := false
+		ast.Inspect(fd.Body, func(n ast.Node) bool {
+			switch st := n.(type) {
+			case *ast.AssignStmt:
+				if st.Tok == token.DEFINE {
+					for _, l := range st.Lhs {
+						if id, ok := l.(*ast.Ident); ok && id.Name == name {
+							local = true
+						}
+					}
+				}
+			case *ast.ValueSpec:
+				for _, nm := range st.Names {
+					if nm.Name == name {
+						local = true
+					}
+				}
+			}
+			return !local
+		})
+		return local
+	}
 	for _, fd := range reach {
 		site := "util:" + funcName(p.name, fd)
 		// the containment test as seen from fd
@@ -193,45 +289,55 @@ func c17OpenFacts(root string) ([]c17OpenFact, error) {
 			}
 		}
 		for _, ce := range callsOf(fd) {
-			q := qual(fd, ce)
 			text := c17Text(p.fset, ce)
-			isFS := false
+			cl := classify(fd, ce)
+			var argExpr ast.Expr
 			switch {
-			case strings.HasPrefix(q, "same:"), strings.HasPrefix(q, "builtin:"):
+			case cl == "pure":
 				continue
-			case q == "method:Error" || q == "method:String":
+			case strings.HasPrefix(cl, "unknown:"):
+				facts = append(facts, c17OpenFact{site, text, c17Unknown, cl[8:]})
 				continue
-			case q == "" || strings.HasPrefix(q, "method:") || strings.HasPrefix(q, "local:"):
-				facts = append(facts, c17OpenFact{site, text, c17Unknown, "call not classified (it may touch the file system)"})
-				continue
-			default:
-				i := strings.LastIndex(q, ".")
-				ip, fn := q[:i], q[i+1:]
-				switch {
-				case ip == "os" && c17OSPure[fn]:
-				case c17FSPackages[ip]:
-					isFS = true
-				case ip == "path/filepath" && c17FilepathFS[fn]:
-					isFS = true
-				case c17PurePackages[ip]:
-				default:
-					facts = append(facts, c17OpenFact{site, text, c17Unknown, "call into " + ip + " not classified (it may touch the file system)"})
+			case cl == "same":
+				name := qual(fd, ce)[5:]
+				infos := helperInfo[name]
+				if len(infos) == 0 || testFns[name] {
 					continue
 				}
-			}
-			if !isFS {
-				continue
-			}
-			if fd != resolve && !testFns[fd.Name.Name] {
-				facts = append(facts, c17OpenFact{site, text, c17Unknown, "file-system call in a helper: its place relative to the test is not followed"})
-				continue
+				if fd != resolve && !testFns[fd.Name.Name] {
+					continue // reported at the call site in the function that holds the test
+				}
+				bad := false
+				for _, h := range infos {
+					if h.verdict != c17OK || h.param >= len(ce.Args) {
+						facts = append(facts, c17OpenFact{site, text, c17Refuted, h.why})
+						bad = true
+					} else {
+						argExpr = ce.Args[h.param]
+					}
+				}
+				if bad || argExpr == nil {
+					continue
+				}
+			default: // a direct file-system call
+				if fd != resolve && !testFns[fd.Name.Name] {
+					if len(helperInfo[fd.Name.Name]) == 0 {
+						facts = append(facts, c17OpenFact{site, text, c17Unknown, "file-system call in a helper that is not followed"})
+					}
+					continue
+				}
+				if len(ce.Args) == 0 {
+					facts = append(facts, c17OpenFact{site, text, c17Unknown, "file-system call without an argument"})
+					continue
+				}
+				argExpr = ce.Args[0]
 			}
 			if test == nil {
 				facts = append(facts, c17OpenFact{site, text, c17Unknown, "no containment test found in this function"})
 				continue
 			}
 			if ce.Pos() < test.Pos() {
-				facts = append(facts, c17OpenFact{site, text, c17Refuted, "file-system call BEFORE the containment test " + c17Text(p.fset, test)})
+				facts = append(facts, c17OpenFact{site, text, c17Refuted, "file system touched BEFORE the containment test " + c17Text(p.fset, test)})
 				continue
 			}
 			// the variables holding the test's results, and the values given to it
@@ -257,14 +363,14 @@ func c17OpenFacts(root string) ([]c17OpenFact, error) {
 			guarded := false
 			path := c17PathTo(fd.Body, ce)
 			for i, n := range path {
-				switch s := n.(type) {
+				switch st := n.(type) {
 				case *ast.IfStmt:
-					if c17Mentions(s.Cond, results) {
+					if c17Mentions(st.Cond, results) {
 						guarded = true
 					}
 				case *ast.SwitchStmt:
-					if s.Tag == nil {
-						for _, cc := range s.Body.List {
+					if st.Tag == nil {
+						for _, cc := range st.Body.List {
 							for _, e := range cc.(*ast.CaseClause).List {
 								if c17Mentions(e, results) {
 									guarded = true
@@ -274,11 +380,11 @@ func c17OpenFacts(root string) ([]c17OpenFact, error) {
 					}
 				case *ast.BlockStmt:
 					if i+1 < len(path) {
-						for _, st := range s.List {
-							if st.End() > path[i+1].Pos() {
+						for _, stm := range st.List {
+							if stm.End() > path[i+1].Pos() {
 								break
 							}
-							if is, ok := st.(*ast.IfStmt); ok && c17Mentions(is.Cond, results) && len(is.Body.List) > 0 {
+							if is, ok := stm.(*ast.IfStmt); ok && c17Mentions(is.Cond, results) && len(is.Body.List) > 0 {
 								if _, ok := is.Body.List[len(is.Body.List)-1].(*ast.ReturnStmt); ok {
 									guarded = true
 								}
@@ -291,11 +397,7 @@ func c17OpenFacts(root string) ([]c17OpenFact, error) {
 				facts = append(facts, c17OpenFact{site, text, c17Unknown, "after the test, but no if / switch / early return on its results was recognised around the call"})
 				continue
 			}
-			if len(ce.Args) == 0 {
-				facts = append(facts, c17OpenFact{site, text, c17Unknown, "file-system call without an argument"})
-				continue
-			}
-			arg := unparen(ce.Args[0])
+			arg := unparen(argExpr)
 			for {
 				if cv, ok := arg.(*ast.CallExpr); ok && len(cv.Args) == 1 && c17CallName(cv.Fun) == "string" {
 					arg = unparen(cv.Args[0])
@@ -305,8 +407,12 @@ func c17OpenFacts(root string) ([]c17OpenFact, error) {
 			}
 			switch a := arg.(type) {
 			case *ast.Ident:
+				if !isLocal(fd, a.Name) {
+					facts = append(facts, c17OpenFact{site, text, c17Refuted, "the value handed to the file system lives in " + a.Name + ", which is not a local variable of " + fd.Name.Name + ": it is shared between test and open (other goroutines, other calls)"})
+					continue
+				}
 				if !tested[a.Name] && !results[a.Name] {
-					facts = append(facts, c17OpenFact{site, text, c17Unknown, "the argument " + a.Name + " is not a variable given to or returned by the test"})
+					facts = append(facts, c17OpenFact{site, text, c17Refuted, "the file system is handed " + a.Name + ", which is not the value given to (or returned by) the containment test"})
 					continue
 				}
 				verdict, why := c17OK, ""
@@ -334,8 +440,10 @@ func c17OpenFacts(root string) ([]c17OpenFact, error) {
 				} else {
 					facts = append(facts, c17OpenFact{site, text, c17Unknown, "the argument is the result of a call: " + c17Text(p.fset, a)})
 				}
+			case *ast.SelectorExpr:
+				facts = append(facts, c17OpenFact{site, text, c17Refuted, "the value handed to the file system is the field / package variable " + c17Text(p.fset, a) + ", not a local holding the tested value"})
 			default:
-				facts = append(facts, c17OpenFact{site, text, c17Unknown, "the argument is not the tested variable: " + c17Text(p.fset, arg)})
+				facts = append(facts, c17OpenFact{site, text, c17Refuted, "the file system is handed " + c17Text(p.fset, arg) + ", which is put together apart from the tested value"})
 			}
 		}
 	}
@@ -352,8 +460,12 @@ func c17OpenFacts(root string) ([]c17OpenFact, error) {
 	containsFS := func(fd *ast.FuncDecl, n ast.Node) bool {
 		r := false
 		ast.Inspect(n, func(m ast.Node) bool {
-			if ce, ok := m.(*ast.CallExpr); ok && isFS(fd, ce) {
-				r = true
+			if ce, ok := m.(*ast.CallExpr); ok {
+				if isFS(fd, ce) {
+					r = true
+				} else if q := qual(fd, ce); strings.HasPrefix(q, "same:") && len(helperInfo[q[5:]]) > 0 {
+					r = true // a helper that touches the file system
+				}
 			}
 			return !r
 		})
@@ -365,6 +477,15 @@ func c17OpenFacts(root string) ([]c17OpenFact, error) {
 			if ce, ok := m.(*ast.CallExpr); ok {
 				if q := qual(fd, ce); q == "fmt.Errorf" || q == "errors.New" {
 					r = true
+				}
+				if id, ok := unparen(ce.Fun).(*ast.Ident); ok {
+					for _, cand := range c.funcs[id.Name] {
+						if cand.Type.Results != nil && len(cand.Type.Results.List) == 1 {
+							if t, ok := cand.Type.Results.List[0].Type.(*ast.Ident); ok && t.Name == "error" {
+								r = true // a same-package function returning only an error
+							}
+						}
+					}
 				}
 			}
 			return !r
@@ -482,6 +603,11 @@ func c17OpenFacts(root string) ([]c17OpenFact, error) {
 			return true
 		})
 	}
+	if other, err := c17OtherAccessFacts(root); err == nil {
+		facts = append(facts, other...)
+	} else {
+		facts = append(facts, c17OpenFact{"interpreter / cli/tool", "-", c17Unknown, "scan failed: " + err.Error()})
+	}
 	hasOpen := false
 	for _, f := range facts {
 		if f.Verdict == c17OK {
@@ -492,6 +618,123 @@ func c17OpenFacts(root string) ([]c17OpenFact, error) {
 		facts = append(facts, c17OpenFact{"util:" + funcName(p.name, resolve), "-", c17Unknown, "no file-system call found at all"})
 	}
 	sort.SliceStable(facts, func(i, j int) bool { return facts[i].Site+facts[i].Call < facts[j].Site+facts[j].Call })
+	return facts, nil
+}
+
+// c17DirectFS reports whether the call is a direct call of a file-system function (qualified through the file's imports).
+func c17DirectFS(imps map[string]string, ce *ast.CallExpr) bool {
+	sel, ok := unparen(ce.Fun).(*ast.SelectorExpr)
+	if !ok {
+		return false
+	}
+	id, ok := sel.X.(*ast.Ident)
+	if !ok {
+		return false
+	}
+	ip, ok := imps[id.Name]
+	if !ok {
+		return false
+	}
+	return c17FSPackages[ip] && !(ip == "os" && c17OSPure[sel.Sel.Name]) || ip == "path/filepath" && c17FilepathFS[sel.Sel.Name]
+}
+
+// c17OtherAccessFacts: file-system calls of the code AROUND the locator.
+//
+//	interpreter: any reachable from importRuntime.Eval (through methods of importRuntime and functions they call by name)
+//	             = REFUTED: the import statement itself must not touch the file system, only the locator does;
+//	cli/tool:    those of CLIInterpreter's methods: handed the entry file / log file / the plugin configuration below
+//	             the root directory = configured (named by the user, not an import); anything else unknown.
+func c17OtherAccessFacts(root string) ([]c17OpenFact, error) {
+	var facts []c17OpenFact
+	// interpreter
+	p, err := loadSrcPkg(filepath.Join(root, "interpreter"))
+	if err != nil {
+		return nil, err
+	}
+	funcs := map[string][]*ast.FuncDecl{}
+	fileOf := map[*ast.FuncDecl]*ast.File{}
+	var eval *ast.FuncDecl
+	for _, f := range p.files {
+		for _, d := range f.Decls {
+			if fd, ok := d.(*ast.FuncDecl); ok && fd.Body != nil {
+				funcs[fd.Name.Name] = append(funcs[fd.Name.Name], fd)
+				fileOf[fd] = f
+				if fd.Name.Name == "Eval" && fd.Recv != nil && strings.Contains(c17Text(p.fset, fd.Recv.List[0].Type), "importRuntime") {
+					eval = fd
+				}
+			}
+		}
+	}
+	if eval == nil {
+		facts = append(facts, c17OpenFact{"interpreter", "-", c17Unknown, "importRuntime.Eval not found"})
+	} else {
+		reach := []*ast.FuncDecl{eval}
+		seen := map[*ast.FuncDecl]bool{eval: true}
+		for i := 0; i < len(reach) && i < 20; i++ {
+			ast.Inspect(reach[i].Body, func(n ast.Node) bool {
+				ce, ok := n.(*ast.CallExpr)
+				if !ok {
+					return true
+				}
+				name := ""
+				switch x := unparen(ce.Fun).(type) {
+				case *ast.Ident:
+					name = x.Name
+				case *ast.SelectorExpr:
+					if id, ok := x.X.(*ast.Ident); ok && reach[i].Recv != nil && len(reach[i].Recv.List[0].Names) > 0 && id.Name == reach[i].Recv.List[0].Names[0].Name {
+						name = x.Sel.Name
+					}
+				}
+				for _, fd := range funcs[name] {
+					if (fd.Recv == nil || strings.Contains(c17Text(p.fset, fd.Recv.List[0].Type), "importRuntime")) && !seen[fd] && fd.Name.Name != "Eval" {
+						seen[fd] = true
+						reach = append(reach, fd)
+					}
+				}
+				return true
+			})
+		}
+		for _, fd := range reach {
+			imps := c17Imports(fileOf[fd])
+			ast.Inspect(fd.Body, func(n ast.Node) bool {
+				if ce, ok := n.(*ast.CallExpr); ok && c17DirectFS(imps, ce) {
+					facts = append(facts, c17OpenFact{"interpreter:" + funcName(p.name, fd), c17Text(p.fset, ce), c17Refuted,
+						"the import statement touches the file system itself, outside the configured locator"})
+				}
+				return true
+			})
+		}
+	}
+	// cli/tool
+	tp, err := loadSrcPkg(filepath.Join(root, "cli/tool"))
+	if err != nil {
+		return nil, err
+	}
+	for _, f := range tp.files {
+		imps := c17Imports(f)
+		for _, d := range f.Decls {
+			fd, ok := d.(*ast.FuncDecl)
+			if !ok || fd.Body == nil || fd.Recv == nil || !strings.Contains(c17Text(tp.fset, fd.Recv.List[0].Type), "CLIInterpreter") {
+				continue
+			}
+			ast.Inspect(fd.Body, func(n ast.Node) bool {
+				ce, ok := n.(*ast.CallExpr)
+				if !ok || !c17DirectFS(imps, ce) || len(ce.Args) == 0 {
+					return true
+				}
+				arg := c17Text(tp.fset, ce.Args[0])
+				v, why := c17Unknown, "a file access of the command line tool whose argument is not recognised"
+				switch {
+				case strings.Contains(arg, "EntryFile") || strings.Contains(arg, "LogFile") || arg == "confFile" || strings.Contains(arg, ".Dir"):
+					v, why = c17OK, "the program's own entry / log / configuration file, named by the user"
+				case c17CallName(ce.Fun) == "os.Getwd" || c17CallName(ce.Fun) == "os.Stdout":
+					v, why = c17OK, ""
+				}
+				facts = append(facts, c17OpenFact{"cli/tool:" + funcName(tp.name, fd), c17Text(tp.fset, ce), v, why})
+				return true
+			})
+		}
+	}
 	return facts, nil
 }
 
